@@ -388,6 +388,31 @@ func ruleGCNotCurrent(r *Report) {
 			cur[ld] = true
 			r.Check(fi.at[ld][g.lock] == modeW, rule, shortFunc(fn)+"/current-read-under-flushLock", ld.Pos(), "the current file number is read under flushLock", "the current file number is read without flushLock: the bound of the GC loop races with a flush that starts a new file")
 		}
+		// or through an accessor that returns the field read under the lock
+		for _, c := range allCalls(fn) {
+			cc := asCall(c)
+			if cc == nil {
+				continue
+			}
+			h := cc.Call.StaticCallee()
+			if h == nil || h.Blocks == nil || !r.E.InModule(h) || h.Signature.Results().Len() != 1 {
+				continue
+			}
+			hfi := lockFlow(h, LockSet{})
+			all := true
+			nret := 0
+			for _, ret := range returnsOf(h) {
+				nret++
+				ld, ok := stripIntConv(retVal(ret, 0)).(*ssa.UnOp)
+				if !ok || fieldOfLoad(ld) != g.curField || hfi.at[ld][g.lock] != modeW {
+					all = false
+				}
+			}
+			if all && nret > 0 {
+				cur[cc] = true
+				r.Ok(rule, shortFunc(fn)+"/current-read-under-flushLock", cc.Pos(), "the current file number is read under flushLock (accessor "+shortFunc(h)+")")
+			}
+		}
 		if len(cur) == 0 {
 			r.Bad(rule, shortFunc(fn)+"/current", fn.Pos(), "the GC loop does not consult the component's current file number: nothing keeps it off the file being appended to")
 			continue
@@ -512,6 +537,7 @@ func init() {
 		ruleFirstFileGuard(r)
 		ruleMergeFraming(r)
 		ruleRescanAppliesAll(r)
+		ruleGoHandshake(r)
 	},
 		"Decides structural necessary conditions of 'GC never changes contents', not the behaviour: index GC sets the deleted bit only on the busy()==false edge (busy reads the bucket under bucketLk and reports in-use iff file number and position both match) or when merging already-deleted records; primary records are marked only via the freelist, when not deleted and the size matches; slices handed to the primary's retaining Put during relocation do not alias a reused buffer; no *os.File result is used after its open failed; the primary is flushed and the freelist pool handed over before a cycle applies the freelist; reap/remove/truncate only touch file numbers dominated by a != current test against a snapshot read under flushLock; relocation frees exactly the moved record's (offset,size) after the re-point; only the header's first file is unlinked, after the header write; all scanners honour the deleted bit. Not covered: truncation offsets (freeAt/busyAt arithmetic), merge sizes, resume cursor, schedules.")
 }
